@@ -739,7 +739,7 @@ impl BufferedDatabaseWriter {
             return Err(e);
         }
         #[cfg(discret_verif)]
-        crate::verif::fault_point("before_commit")?;
+        crate::verif::poison_commit(conn, "before_commit")?;
         if let Err(e) = conn.execute("COMMIT", []) {
             //a failed COMMIT leaves the transaction open
             let _ = conn.execute("ROLLBACK", []);
